@@ -40,14 +40,15 @@ AlphaAll(nd)   == IF nd = 1 THEN {2, 4, 6, 3, 5} ELSE IF nd = 2 THEN {4, 6, 3, 5
 AlphaQuick(nd) == IF nd = 1 THEN {2, 4, 6, 3} ELSE IF nd = 2 THEN {4, 6, 3} ELSE {4, 6, 5}
 AnisoAll(nd)   == IF nd = 1 THEN {"iso"} ELSE {"iso", "aniso", "rotaniso"}
 
-H(c) == c.nd + c.alpha2 + c.sill2 + c.mesh.nx[1] + (IF c.rot[1] = 0 THEN 0 ELSE 1)
-        + (IF c.aniso = "iso" THEN 0 ELSE IF c.aniso = "aniso" THEN 1 ELSE 2)
-        + (CASE c.layout = "spread" -> 0 [] c.layout = "cluster" -> 1 [] c.layout = "nodes" -> 2 [] OTHER -> 3)
-        + (CASE c.verr = "const" -> 0 [] c.verr = "distinct" -> 1 [] OTHER -> 2)
-        + (CASE c.mesh.fam = "turbo" -> 0 [] c.mesh.fam = "turbopol" -> 1 [] c.mesh.fam = "std_alt" -> 2 [] c.mesh.fam = "turbomask" -> 4 [] OTHER -> 3)
-\* quick: one configuration out of seven of the product, chosen by a fixed rule; thorough: one out of three
-KeepQuick(c) == H(c) % 7 = 0
-KeepThor(c)  == H(c) % 3 = 0
+\* a fixed "hash" of the configuration (weighted sum of the codes of its fields) used to thin the product
+Code(x, seq) == CHOOSE i \in 1..Len(seq) : seq[i] = x
+H(c) == 3 * c.nd + 5 * c.alpha2 + 7 * c.sill2 + 11 * c.mesh.nx[1] + 13 * (IF c.rot[1] = 0 THEN 0 ELSE IF c.rot[1] = 1 THEN 1 ELSE 2)
+        + 17 * Code(c.aniso, <<"iso", "aniso", "rotaniso">>) + 19 * Code(c.layout, <<"spread", "cluster", "nodes", "outside">>)
+        + 23 * Code(c.verr, <<"const", "distinct", "extreme">>) + 29 * c.nstruct + 31 * Code(c.drift, <<"none", "const", "linear">>)
+        + 41 * Code(c.mesh.fam, <<"turbo", "turbopol", "turbomask", "std_same", "std_alt", "std_alt2", "std_pert">>)
+\* quick: one configuration out of 53 of the product, chosen by a fixed rule; thorough: one out of 11
+KeepQuick(c) == H(c) % 53 = 0
+KeepThor(c)  == H(c) % 11 = 0
 KeepAll(c)   == TRUE
 
 Coefs == { <<1, 1>>, <<1, 2, 1>>, <<1, 3, 3, 1>>, <<2, 0, -1>>, <<-1, 2, 0, 1>>, <<3>>, <<0, 0, 0, 0, 1>>, <<1, -1, 1, -1, 1, -1>> }
